@@ -435,6 +435,12 @@ mod worker {
                 async move {
                     let stream_h3 = match stream_quic.upgrade().await {
                         Ok(stream_h3) => stream_h3,
+                        Err(ProtoReadError::H3(ErrorCode::StreamCreation)) => {
+                            // A stream of unknown type is not a connection error:
+                            // reading has been aborted for this stream only.
+                            debug!("Unknown stream type: stream discarded");
+                            return;
+                        }
                         Err(ProtoReadError::H3(error_code)) => {
                             let _ = ready_uni_h3_streams
                                 .send(Err(DriverError::Proto(error_code)))
